@@ -9,6 +9,7 @@
   not injected (signac reads it as "not there" by design — the property excludes it).
 -/
 import Signac.Proofs.LifeGood
+import Signac.Proofs.LifeReset
 namespace Signac.C11
 open Signac.Life
 
@@ -133,5 +134,132 @@ example : (run cexCodec (faultAt 1 .EIO) ((Op.rekey cexSrc (0, "x") 2 : Op Nat).
 
 /-- `remove_safe` / `clear_safe` / `remove_only_shrinks`: an existing directory with payload -/
 example : cexW cexSrc = some cexS ∧ cexS.entries ≠ [] := ⟨by simp [cexW, cexSrc], by simp [cexS]⟩
+
+/- ---- `Job.reset()` = `clear(); init()`: sequencing, and "the job itself stays" ---- -/
+
+/-- sequencing (`Prog.seq`: `p`, then — if `p` returned normally — `q`; one program, steps numbered
+    through): the run of the composite is the run of `p`; if that returned normally, followed by the
+    run of `q` from the world `p` left under the schedule shifted by the number of steps `p`
+    announced (`shiftEv m ev = fun n => ev (m + n)`), with `p`'s step count, trace and fault flag
+    carried over (`Outcome.after`: counts add, traces concatenate, the fault flag is or-ed; world and
+    result are those of `q`).  An exception or a death of `p` is the outcome of the composite. -/
+theorem run_seq (C : Codec Sp) (ev : Nat → Option Ev) (p q : Prog Sp) (w : World Sp) :
+    run C ev (p.seq q) w =
+      if (run C ev p w).res = .ok then
+        (run C (shiftEv (run C ev p w).acc.n ev) q (run C ev p w).w).after (run C ev p w).acc
+      else run C ev p w := run_seq_eq C ev p q w
+
+/-- `clear()` never removes THE JOB: after EVERY schedule — death anywhere, torn writes, any
+    injected errno, ENOENT included — the job directory is still there and its state-point file is
+    untouched (same content, or still absent) -/
+theorem clear_keeps_job (C : Codec Sp) (ev : Nat → Option Ev) (k : Key) (order : List Ref) (w : World Sp)
+    (d : JobDir Sp) (hd : w k = some d) :
+    ∃ d', (run C ev (clearProg k order) w).w k = some d' ∧ d'.sp = d.sp :=
+  clear_keeps_sp C ev k order {} w d hd
+
+/-- `reset()` never removes THE JOB: if the job validates before, then after EVERY schedule its
+    directory is still there, its state-point file is untouched, and it still validates -/
+theorem reset_keeps_job (C : Codec Sp) (ev : Nat → Option Ev) (k : Key) (order : List Ref) (v : Sp)
+    (w : World Sp) (d : JobDir Sp) (hd : w k = some d) (hv : validAt C w k = true) :
+    ∃ d', (run C ev (resetProg C k order v) w).w k = some d' ∧ d'.sp = d.sp ∧
+      validAt C (run C ev (resetProg C k order v) w).w k = true :=
+  reset_keeps C ev k order v w d hd hv
+
+/-- … on such a job the closing `init()` announces no step: `reset` and `clear` have the same
+    outcome (world, result, step trace, fault flag) under every schedule -/
+theorem reset_of_valid_job_is_clear (C : Codec Sp) (ev : Nat → Option Ev) (k : Key) (order : List Ref) (v : Sp)
+    (w : World Sp) (hv : validAt C w k = true) :
+    run C ev (resetProg C k order v) w = run C ev (clearProg k order) w :=
+  reset_valid_eq_clear C ev k order v w hv
+
+/-- … and whatever the state-point file looks like (absent, torn, foreign): the directory of an
+    existing job is still there after `reset`, under every schedule -/
+theorem reset_keeps_dir (C : Codec Sp) (ev : Nat → Option Ev) (k : Key) (order : List Ref) (v : Sp)
+    (w : World Sp) (hd : (w k).isSome = true) : ((run C ev (resetProg C k order v) w).w k).isSome = true :=
+  reset_keeps_directory C ev k order v w hd
+
+/-- frame: every other job directory is identical after `reset`, under every schedule -/
+theorem reset_others_untouched (C : Codec Sp) (ev : Nat → Option Ev) (k : Key) (order : List Ref) (v : Sp)
+    (w : World Sp) {k' : Key} (hk : k' ≠ k) : (run C ev (resetProg C k order v) w).w k' = w k' :=
+  reset_frame C ev k order v w hk
+
+/-- a consumed fault never ends in a normal return (any pre-state), provided ENOENT is not
+    injected — `clear` reads ENOENT as "not there" (`Op.readsENOENT (.clear k order)`); the proviso
+    is needed: `reset_enoent_swallowed`.  If the process did not die, an exception propagates. -/
+theorem reset_fault_raises (C : Codec Sp) (ev : Nat → Option Ev) (k : Key) (order : List Ref) (v : Sp)
+    (w : World Sp) (hne : (Op.clear k order : Op Sp).readsENOENT → NoENOENT ev)
+    (hf : (run C ev (resetProg C k order v) w).faulted = true) :
+    (run C ev (resetProg C k order v) w).res ≠ .ok ∧
+    ((run C ev (resetProg C k order v) w).res ≠ .crashed →
+      ∃ n, (run C ev (resetProg C k order v) w).res = .exc n) := by
+  have h := reset_fault_not_ok C ev (hne trivial) k order v w hf
+  refine ⟨h, fun hnc => ?_⟩
+  cases hr : (run C ev (resetProg C k order v) w).res with
+  | ok => exact absurd hr h
+  | crashed => exact absurd hr hnc
+  | exc n => exact ⟨n, rfl⟩
+
+/-- a normal return means done: the whole outcome is that of the event-free run (ENOENT not injected) … -/
+theorem reset_ok_means_done (C : Codec Sp) (ev : Nat → Option Ev) (k : Key) (order : List Ref) (v : Sp)
+    (w : World Sp) (hne : (Op.clear k order : Op Sp).readsENOENT → NoENOENT ev)
+    (hok : (run C ev (resetProg C k order v) w).res = .ok) :
+    run C ev (resetProg C k order v) w = run C noEv (resetProg C k order v) w :=
+  reset_ok_event_free C ev (hne trivial) k order v w hok
+
+/-- … and for a settled job whose directory the scan order enumerates, that is: payload removed,
+    document reset to `{}`, state-point file (and every other directory) as before -/
+theorem reset_ok_final_state (C : Codec Sp) (ev : Nat → Option Ev) (k : Key) (order : List Ref) (v : Sp)
+    (w : World Sp) (d : JobDir Sp) (hne : (Op.clear k order : Op Sp).readsENOENT → NoENOENT ev)
+    (hw : w k = some d) (hd : Settled C k.2 d) (hs : Scans (fun p => getEntry p d.entries) order)
+    (hok : (run C ev (resetProg C k order v) w).res = .ok) :
+    (run C ev (resetProg C k order v) w).w = upd w k (some { d with entries := [(docName, some "{}")] }) := by
+  rw [reset_ok_means_done C ev k order v w hne hok]
+  exact (reset_noEv_state C k order v w d hw hd hs).2
+
+/-- the event-free `reset` of such a job does return normally (non-vacuity of the two above) -/
+theorem reset_event_free_ok (C : Codec Sp) (k : Key) (order : List Ref) (v : Sp) (w : World Sp) (d : JobDir Sp)
+    (hw : w k = some d) (hd : Settled C k.2 d) (hs : Scans (fun p => getEntry p d.entries) order) :
+    (run C noEv (resetProg C k order v) w).res = .ok := (reset_noEv_state C k order v w d hw hd hs).1
+
+/-- the ENOENT proviso is needed: the unlink of the data file `f` (step 0) fails with an injected
+    ENOENT; `clear` reads it as "not there" and stops, `init` finds a valid job — normal return with
+    a consumed fault, `f` still there, no document; the event-free run deletes `f` and writes `{}` -/
+theorem reset_enoent_swallowed :
+    let o := run cexCodec (faultAt 0 .ENOENT) (resetProg cexCodec cexSrc cexOrder 1) cexW
+    let o0 := run cexCodec noEv (resetProg cexCodec cexSrc cexOrder 1) cexW
+    o.res = .ok ∧ o.faulted = true ∧ hasFile o.w cexSrc "f" = true ∧ hasFile o.w cexSrc docName = false ∧
+      o0.res = .ok ∧ hasFile o0.w cexSrc "f" = false ∧ hasFile o0.w cexSrc docName = true :=
+  reset_enoent_swallowed_cex
+
+/-- the regression `reset = remove(); init()` (`removeThenInitProg`) loses the job: the job of
+    `cexW` validates; steps 0–2 are the removal (unlink state point, unlink `f`, rmdir), step 3
+    would be `init`'s mkdir; the process dies right after the last step of the removal — no
+    directory is left.  (`reset_keeps_job` excludes this for `resetProg`, for every schedule.) -/
+theorem remove_then_init_loses_job :
+    let o := run cexCodec (crashAt 3) (removeThenInitProg cexCodec cexSrc cexOrder 1) cexW
+    validAt cexCodec cexW cexSrc = true ∧ o.res = .crashed ∧ o.w cexSrc = none :=
+  remove_then_init_loses_cex
+
+/-- the same with a handled I/O error: `init`'s mkdir (step 3) fails with EIO, an exception
+    propagates, and the job is gone -/
+theorem remove_then_init_loses_job_fault :
+    let o := run cexCodec (faultAt 3 .EIO) (removeThenInitProg cexCodec cexSrc cexOrder 1) cexW
+    o.res = .exc "OSError(EIO)" ∧ o.w cexSrc = none :=
+  remove_then_init_loses_fault_cex
+
+/-- hence "the job stays under every schedule" separates the two implementations: it holds of
+    `resetProg` (`reset_keeps_job`) and fails for `removeThenInitProg` -/
+theorem remove_then_init_not_keeps_job :
+    ¬ ∀ (ev : Nat → Option Ev), ∃ d',
+        (run cexCodec ev (removeThenInitProg cexCodec cexSrc cexOrder 1) cexW).w cexSrc = some d' := by
+  intro h
+  obtain ⟨d', hd'⟩ := h (crashAt 3)
+  rw [remove_then_init_loses_job.2.2] at hd'
+  cases hd'
+
+/-- non-vacuity of `reset_keeps_job` / `clear_keeps_job` on the same instance and schedule -/
+example : cexW cexSrc = some cexS ∧ validAt cexCodec cexW cexSrc = true ∧
+    (run cexCodec (crashAt 3) (resetProg cexCodec cexSrc cexOrder 1) cexW).res = .crashed :=
+  ⟨by simp [cexW, cexSrc], by decide, by decide⟩
 
 end Signac.C11
